@@ -22,7 +22,7 @@ ASSUMPTIONS = ['segyio is the reference implementation of the interface']
 def cases(tier, seed):
     rng = random.Random('C13/%s' % seed)
     out = []
-    n = 12 if tier == 'quick' else 160
+    n = 40 if tier == 'quick' else 240
     # line numbers are kept >= 0: segyio resolves slices through slice.indices(), which reinterprets negative LABELS as
     # positions from the end, so its results on negative line numbers are an artefact rather than a reference
     axes = [((1, 1), (1, 1)), ((10, 2), (100, 5)), ((20, -1), (5, 1)), ((40, -2), (60, -3)), ((5, 1), (30, -1)), ((3, 1), (10, 2)), ((100, 7), (7, 7)), ((0, 1), (0, 1))]
